@@ -124,11 +124,11 @@ impl<const N: usize> Sodg<N> {
     #[inline]
     pub fn put(&mut self, v: usize, d: &Hex) {
         let vtx = self.vertices.get_mut(v).unwrap();
-        vtx.persistence = Persistence::Stored;
-        vtx.data = d.clone();
-        if vtx.branch != BRANCH_STATIC {
+        if vtx.branch != BRANCH_STATIC && vtx.persistence != Persistence::Stored {
             *self.stores.get_mut(vtx.branch).unwrap() += 1;
         }
+        vtx.persistence = Persistence::Stored;
+        vtx.data = d.clone();
         #[cfg(debug_assertions)]
         trace!("#put: data of ν{v} set to {d}");
     }
